@@ -340,6 +340,8 @@ class Wild(Obj):
         return Wild(name="result")
 
     def op(self, I, op, rest, n, a0):
+        if op in ("==", "!=", "<", ">", "<=", ">="):
+            return I.ctx.fresh("wild_compare", "bool")
         return Wild(name="result")
 
 
@@ -1140,3 +1142,262 @@ class TryMatch(Kernel):
 models_install = __import__("cxxvc.models", fromlist=["install_guards"]).install_guards
 models_install(TryMatch)
 KERNELS.append(TryMatch)
+
+
+# ------------------------------------------------------------------ ts_pattern_match: one type per variable
+#
+# "The selected candidate's parameters really match the supplied types with every type variable bound to one type across
+# all positions."  The bind functions (above) refuse an inconsistent re-bind, but the matcher never reaches them for a
+# variable that is already bound: it compares the earlier binding with the supplied type itself.  Schemas are interned,
+# so "one type" is pointer identity; ts_pattern_match is proved to accept a second occurrence of a variable only for the
+# identical schema - for a whole-time-series variable and for a TSB schema variable alike.
+
+TSK = {"TS": 0, "TSS": 1, "TSD": 2, "TSL": 3, "TSW": 4, "TSB": 5, "REF": 6, "SIGNAL": 7}
+Equiv = z3.Function("schema_structurally_equivalent", I_, I_, B_)
+
+
+class SchemaId(MetaPtr):
+    """const TSValueTypeMetaData * identified by an integer (0 = nullptr)"""
+    cls = "TSValueTypeMetaData*"
+
+    def __init__(self, k, mid):
+        MetaPtr.__init__(self, mid)
+        self.k = k
+
+    def truth(self, I):
+        return self.mid != 0
+
+    def arrow(self, I):
+        return SchemaObj(self.k, self.mid)
+
+
+class SchemaObj(Obj):
+    cls = "TSValueTypeMetaData"
+
+    def __init__(self, k, mid):
+        Obj.__init__(self, name="schema")
+        self.k, self.mid = k, mid
+
+    def member(self, ctx, name, node):
+        if name == "kind":
+            return z3.Function("schema_kind", I_, I_)(self.mid)
+        if name in ("value_schema", "value_type"):
+            return Ptr(Wild(name=name), z3.Function(name + "_null", I_, B_)(self.mid))
+        return Wild(name=name)
+
+    def m_referenced_ts(self, I, a, n): return SchemaId(self.k, z3.Function("referenced_ts", I_, I_)(self.mid))
+    def m_element_ts(self, I, a, n): return SchemaId(self.k, z3.Function("element_ts", I_, I_)(self.mid))
+    def m_fixed_size(self, I, a, n): return z3.Function("schema_fixed_size", I_, I_)(self.mid)
+    def m_period(self, I, a, n): return z3.Function("schema_period", I_, I_)(self.mid)
+    def m_min_period(self, I, a, n): return z3.Function("schema_min_period", I_, I_)(self.mid)
+    def m_is_duration_based(self, I, a, n): return z3.Function("schema_duration_based", I_, B_)(self.mid)
+    def m_is_named_tsb(self, I, a, n): return z3.Function("schema_named_tsb", I_, B_)(self.mid)
+    def m_key_type(self, I, a, n): return Wild(name="key_type")
+    def m_bundle_name(self, I, a, n): return Ptr(Wild(name="bundle_name"), I.ctx.fresh("bundle_name_null", "bool"))
+    def m_field_count(self, I, a, n): return z3.Function("schema_field_count", I_, I_)(self.mid)
+
+    def m_fields(self, I, a, n):
+        k, mid = self.k, self.mid
+
+        class Fields(Obj):
+            cls = "fields"
+
+            def index(self2, I_2, j, n=None):
+                f = Obj("TSFieldMetaData", "field")
+                I_2.ctx.store[(f.oid, "name")] = Ptr(Wild(name="field_name"), I_2.ctx.fresh("field_name_null", "bool"))
+                I_2.ctx.store[(f.oid, "type")] = SchemaId(k, z3.Function("field_type", I_, I_, I_)(mid, j))
+                return f
+        return Fields(name="fields")
+
+
+class NameTok(Obj):
+    cls = "std::string"
+
+    def __init__(self, what):
+        Obj.__init__(self, name=what)
+        self.what = what
+
+
+class MatchPattern(Obj):
+    cls = "TypePattern"
+
+    def __init__(self, k, top=True):
+        Obj.__init__(self, name="pattern" if top else "child_pattern")
+        self.k, self.top = k, top
+
+    def member(self, ctx, name, node):
+        k = self.k
+        if not self.top:
+            raise Gap("member %s of a child pattern read outside the recursive call" % name)
+        if name == "kind":
+            return k.pkind
+        if name == "name":
+            return k.var_name
+        if name == "meta":
+            return SchemaId(k, z3.Int("pattern_meta"))
+        if name == "children":
+            return Vec(ctx, "children", length=k.nchildren, elem=lambda j: MatchPattern(k, top=False))
+        if name in ("schema_var", "named_bundle", "any_window", "size_var"):
+            return z3.Bool("pattern_" + name)
+        if name in ("fixed_size", "min_size"):
+            return z3.Int("pattern_" + name)
+        if name == "field_names":
+            return Vec(ctx, "field_names", length=k.nchildren, elem=lambda j: Wild(name="field_name"))
+        return Wild(name=name)
+
+
+class MatchMap(Obj):
+    cls = "ResolutionMap"
+
+    def __init__(self, k):
+        Obj.__init__(self, name="map")
+        self.k = k
+
+    def m_find_ts(self, I, a, n):
+        nm = I.ctx.rv(a[0])
+        if not (z3.is_expr(nm) and z3.eq(nm, self.k.var_name)):
+            raise Gap("find_ts for a name that is not this pattern's variable")
+        return SchemaId(self.k, self.k.bound)
+
+    def m_bind_ts(self, I, a, n):
+        c = I.ctx
+        g = self.k.g
+        nm, v = c.rv(a[0]), c.rv(a[1])
+        c.write(Loc((g.oid, "binds")), c.store[(g.oid, "binds")] + 1)
+        c.write(Loc((g.oid, "bind_ok")), z3.BoolVal(z3.is_expr(nm) and z3.eq(nm, self.k.var_name) and isinstance(v, SchemaId)))
+        c.write(Loc((g.oid, "bound_to")), v.mid if isinstance(v, SchemaId) else z3.IntVal(-1))
+        return VOID
+
+
+class TsPatternMatch(Kernel):
+    name = "type_pattern.cpp:ts_pattern_match"
+    tu = "src/hgraph/types/type_pattern.cpp"
+    filter = "ts_pattern_match"
+    fn_name = "ts_pattern_match"
+    property_ids = ("C19",)
+    scope = {"lo": 0, "hi": 3}
+    max_paths = 20000
+    title = "ts_pattern_match: a variable that is already bound matches only the identical schema; a free one is bound once, to " \
+            "the supplied schema"
+
+    def setup(self, I):
+        ctx = I.ctx
+        self.pkind = z3.Int("pattern_kind")
+        self.concrete = z3.Int("concrete")
+        self.bound = z3.Int("already_bound_to")            # 0: the variable is free
+        self.allowed = z3.Bool("allowed_by_constraints")
+        self.nchildren = z3.Int("n_children")
+        self.var_name = z3.Int("pattern_name")          # strings are opaque ids
+        ctx.assume(z3.And(self.nchildren >= 0, self.pkind >= 0, self.pkind <= 9))
+        ctx.assume(z3.Implies(z3.Or(*[self.pkind == TS[k] for k in ("TSL", "TSD", "REF")]), self.nchildren >= 1))
+        qx = z3.Int("qx")
+        ctx.assume(z3.ForAll([qx], Equiv(qx, qx)))
+        g = Obj("ghost", "mg")
+        self.g = g
+        ctx.store[(g.oid, "binds")] = z3.IntVal(0)
+        ctx.store[(g.oid, "bind_ok")] = z3.BoolVal(False)
+        ctx.store[(g.oid, "bound_to")] = z3.IntVal(-1)
+        ctx.store[(g.oid, "delegated_same_pattern")] = z3.IntVal(0)
+        ctx.store[(g.oid, "delegated_to")] = z3.IntVal(-1)
+        self.rec_result = z3.Bool("result_of_the_recursive_call_on_the_referenced_schema")
+        self.pattern = MatchPattern(self)
+        self.map = MatchMap(self)
+        return None, {"pattern": self.pattern, "concrete": SchemaId(self, self.concrete), "map": self.map}
+
+    def enum_const(self, I, ref):
+        nm = ref.get("name")
+        qual = ref.get("type", {}).get("qualType", "")
+        if "TSTypeKind" in qual and nm in TSK:
+            return z3.IntVal(TSK[nm])
+        if "TypePattern" in qual and nm in TS:
+            return z3.IntVal(TS[nm])
+        raise Gap("enum constant %s of %s" % (nm, qual))
+
+    def function_handler(self, name, node, callee_node):
+        g = self.g
+        if name == "ts_pattern_match":
+            def rec(I, a, n):
+                c = I.ctx
+                p, s, m = c.rv(a[0]), c.rv(a[1]), c.rv(a[2])
+                if m is not self.map:
+                    raise Gap("recursive match under another map")
+                if p is self.pattern:
+                    c.write(Loc((g.oid, "delegated_same_pattern")), c.store[(g.oid, "delegated_same_pattern")] + 1)
+                    c.write(Loc((g.oid, "delegated_to")), s.mid if isinstance(s, SchemaId) else z3.IntVal(-1))
+                    return self.rec_result
+                return c.fresh("child_matches", "bool")
+            return rec
+        if name in ("scalar_pattern_match", "size_pattern_match", "input_scalar_pattern_match", "input_ts_pattern_match"):
+            return lambda I, a, n: I.ctx.fresh(name, "bool")
+        if name == "ts_allowed_by_constraints":
+            def al(I, a, n):
+                p, s = I.ctx.rv(a[0]), I.ctx.rv(a[1])
+                if p is self.pattern and isinstance(s, SchemaId) and z3.eq(s.mid, self.concrete):
+                    return self.allowed
+                return I.ctx.fresh("allowed_other", "bool")
+            return al
+        if name == "time_series_schema_equivalent":
+            def eqv(I, a, n):
+                l, r = I.ctx.rv(a[0]), I.ctx.rv(a[1])
+                if not (isinstance(l, SchemaId) and isinstance(r, SchemaId)):
+                    raise Gap("time_series_schema_equivalent of untracked schemas")
+                return Equiv(l.mid, r.mid)
+            return eqv
+        return Kernel.function_handler(self, name, node, callee_node)
+
+    def method_handler(self, obj, name, node):
+        if isinstance(obj, Wild):
+            if name == "size":
+                return lambda I, o, a, n: I.ctx.fresh("wild_size")
+            return lambda I, o, a, n: Wild(name=name)
+        return Kernel.method_handler(self, obj, name, node)
+
+    def inv(self, I, ctx):
+        i = ctx.rv(self.local(I, "i"))
+        yield "nothing-bound-by-the-field-loop", z3.And(ctx.store[(self.g.oid, "binds")] == 0, i >= 0, i <= self.nchildren)
+
+    @property
+    def loops(self):
+        return {0: LoopSpec(self.inv, lambda I, ctx: [])}
+
+    def post(self, I, ret):
+        ctx = I.ctx
+        g = lambda nm: ctx.store[(self.g.oid, nm)]
+        ck = z3.Function("schema_kind", I_, I_)(self.concrete)
+        live = self.concrete != 0
+        through_ref = z3.And(live, self.pkind != TS["REF"], ck == TSK["REF"])
+        direct = z3.And(live, z3.Not(through_ref))
+        var = z3.And(direct, self.pkind == TS["Var"])
+        svar = z3.And(direct, self.pkind == TS["TSB"], ck == TSK["TSB"], z3.Bool("pattern_schema_var"))
+        is_bound = self.bound != 0
+        bound_once = z3.And(g("binds") == 1, g("bind_ok"), g("bound_to") == self.concrete)
+        ret = ret if z3.is_bool(ret) else ret != 0
+        ctx.oblige("ensures.no-schema=>no-match", z3.Implies(z3.Not(live), z3.And(z3.Not(ret), g("binds") == 0)), kind="post-normal")
+        ctx.oblige("ensures.a-reference-is-transparent:the-answer-is-that-of-the-referenced-schema",
+                   z3.Implies(through_ref, z3.And(g("delegated_same_pattern") == 1, g("binds") == 0, ret == self.rec_result,
+                                                  g("delegated_to") == z3.Function("referenced_ts", I_, I_)(self.concrete))),
+                   kind="post-normal")
+        ctx.oblige("ensures.bound-variable-matches-only-the-identical-schema[C19 every type variable bound to one type across all "
+                   "positions]", z3.Implies(z3.And(var, is_bound), z3.And(ret == z3.And(self.bound == self.concrete, self.allowed),
+                                                                            g("binds") == 0)), kind="post-normal")
+        ctx.oblige("ensures.free-variable-is-bound-once-to-the-supplied-schema-iff-allowed[C19 the output type is the substitution of "
+                   "those bindings]", z3.Implies(z3.And(var, z3.Not(is_bound)), z3.And(ret == self.allowed, z3.If(ret, bound_once, g("binds") == 0))),
+                   kind="post-normal")
+        # three clauses, so that the listed finding F12 (structurally equivalent bundles are accepted) does not hide a match of
+        # bundles that are not even equivalent
+        ctx.oblige("ensures.bound-bundle-schema-variable:the-identical-bundle-matches,nothing-is-re-bound[C19]",
+                   z3.Implies(z3.And(svar, is_bound), z3.And(z3.Implies(self.bound == self.concrete, ret), g("binds") == 0)),
+                   kind="post-normal")
+        ctx.oblige("ensures.bound-bundle-schema-variable-never-matches-a-bundle-of-another-shape[C19 every type variable bound to one "
+                   "type across all positions]", z3.Implies(z3.And(svar, is_bound, ret), Equiv(self.bound, self.concrete)),
+                   kind="post-normal")
+        ctx.oblige("ensures.bound-bundle-schema-variable-matches-only-the-identical-bundle[C19 every type variable bound to one type "
+                   "across all positions]", z3.Implies(z3.And(svar, is_bound, ret), self.bound == self.concrete), kind="post-normal")
+        ctx.oblige("ensures.free-bundle-schema-variable-is-bound-once-to-the-supplied-bundle-iff-allowed[C19]",
+                   z3.Implies(z3.And(svar, z3.Not(is_bound)), z3.And(ret == self.allowed, z3.If(ret, bound_once, g("binds") == 0))),
+                   kind="post-normal")
+        ctx.oblige("ensures.no-other-case-binds-this-pattern's-variable", z3.Implies(z3.Not(z3.Or(var, svar)), g("binds") == 0),
+                   kind="post-normal")
+
+
+KERNELS += [TsPatternMatch]
